@@ -258,6 +258,9 @@ let ref_mode = ref false
 let lrspec_mode = ref false
 
 (* ---------- main ---------- *)
+exception Case_timeout
+let case_limit = ref 15.0
+let () = Sys.set_signal Sys.sigalrm (Sys.Signal_handle (fun _ -> raise Case_timeout))
 let quirks = ref faithful
 let set_quirks (b : String.t) =
   let g i = String.length b > i && b.[i] = '1' in
@@ -512,6 +515,7 @@ let () =
               ("-quirks", Arg.String set_quirks, "6 bits: lit_eof stale_ctx recover_scope memo_nocharge memo_label lr_memo_state (default 111111 = faithful)");
               ("-lrspec", Arg.Set lrspec_mode, "evaluate the specification with left-recursive rules read as iterations (Spec.LRIter)");
               ("-ref", Arg.Set ref_mode, "evaluate the specification (Ref) instead of the implementation model");
+              ("-limit", Arg.Set_float case_limit, "seconds allowed per case (default 15)");
               ("-fuel", Arg.Set_int fuel, "fuel") ] (fun _ -> ()) "driver";
   if !dec <> "" then (decode_mode !dec; exit 0);
   if !cls <> "" then (cls_mode !cls; exit 0);
@@ -529,9 +533,15 @@ let () =
        if String.length line > 0 && line.[0] = '(' then begin
          match parse_sexps line with
          | [sx] ->
+             (* the fuel of the model bounds depth, not work: a per-case time limit keeps exponential cases from
+                stalling a run; they are reported as model-timeout and left out of every comparison *)
+             let id = (match sx with L (A "case" :: A id :: _) -> id | _ -> "?") in
+             ignore (Unix.setitimer Unix.ITIMER_REAL { Unix.it_interval = 0.0; Unix.it_value = !case_limit });
              (try print_endline (run_case !fuel sx)
-              with Stack_overflow -> print_endline "?\tout=model-stack-overflow"
-                 | Failure m -> print_endline ("?\tout=model-failure:" ^ m))
+              with Stack_overflow -> print_endline (id ^ "\tout=model-stack-overflow")
+                 | Case_timeout -> print_endline (id ^ "\tout=model-timeout")
+                 | Failure m -> print_endline (id ^ "\tout=model-failure:" ^ m));
+             ignore (Unix.setitimer Unix.ITIMER_REAL { Unix.it_interval = 0.0; Unix.it_value = 0.0 })
          | _ -> ()
        end
      done
